@@ -29,6 +29,96 @@ def exception_info(prog, cls_q):
     return dsl, code
 
 
+def task_links_validated(ctx, rule):
+    """The reverse controller resolves every `requires` name with
+    wf_spec.get_tasks()[name] and uses the result as a task spec; the direct
+    controller does so for every transition target that is not an engine
+    command.  A name that is neither is an internal error at run time, so
+    the definition must be refused."""
+    from mstatic.rules import dt
+    prog = ctx.prog
+    WF = 'mistral.lang.v2.workflows.'
+    vl = prog.func(WF + 'WorkflowSpec._validate_task_link')
+    t = dt.Table(ctx, vl, [('self._task_exists(task_name)', (True, False)),
+                           ('allow_engine_cmds', (True, False)),
+                           ('task_name in ENGINE_COMMANDS', (True, False))],
+                 extra_vars=[('valid_task', (False, True))])
+    raises = [n for n in t.cfg.nodes if n.kind == 'stmt' and
+              isinstance(n.ast, ast.Raise)]
+    if len(raises) != 1:
+        raise AnalysisError('C14.R10: _validate_task_link has %d raise '
+                            'statements' % len(raises))
+    t.check_exact(
+        rule, raises[0],
+        lambda d: not d['self._task_exists(task_name)'] and not (
+            d['allow_engine_cmds'] and d['task_name in ENGINE_COMMANDS']),
+        'the unknown-task error is raised',
+        'refused exactly when neither a task nor an allowed engine command')
+    rule.check(U.phas(raises[0].ast, 'exc.InvalidModelException(___)') or
+               U.phas(raises[0].ast, 'exc.DSLParsingException(___)'),
+               ctx.construct(vl, raises[0].ast, extra='definition error'),
+               'an unknown task is not reported as a definition error',
+               ctx.loc(vl, raises[0].ast))
+    te = prog.func(WF + 'WorkflowSpec._task_exists')
+    rule.check(U.phas(te.node, 'return self.get_tasks()[task_name] '
+                      'is not None'), ctx.construct(te),
+               '_task_exists does not look the name up among the tasks',
+               ctx.loc(te))
+    # reverse: every (task, require) pair, engine commands not allowed
+    rv = prog.func(WF + 'ReverseWorkflowSpec._check_workflow_integrity')
+    rcfg = ctx.cfg(rv)
+    cs = U.calls_in(rcfg, '_validate_task_link')
+    rule.check(len(cs) == 1, ctx.construct(rv, extra='validates requires'),
+               'requires are not validated', ctx.loc(rv))
+    for n, c in cs:
+        kw = U.kwarg(c, 'allow_engine_cmds', 1)
+        rule.check(isinstance(kw, ast.Constant) and kw.value is False,
+                   ctx.construct(rv, c, extra='engine commands refused'),
+                   'a `requires` entry that names an engine command (fail, '
+                   'pause, ...) is accepted: the reverse controller treats '
+                   'it as a task and crashes when the workflow runs',
+                   ctx.loc(rv, c))
+        fors = [x for x in own_nodes(rv.node) if isinstance(x, ast.For)
+                and any(y is c for y in ast.walk(x))]
+        its = sorted(norm(x.iter) for x in fors)
+        rule.check(its == ['self.get_task_requires(t_s)', 'self.get_tasks()']
+                   and norm(c.args[0]) in [norm(x.target) for x in fors]
+                   and not U.guard_atoms(rcfg, n),
+                   ctx.construct(rv, c, extra='all requires of all tasks'),
+                   'not every requirement (own and task-defaults) of every '
+                   'task is validated (loops over %s)' % its, ctx.loc(rv, c))
+    sv = prog.func(WF + 'ReverseWorkflowSpec.validate_semantics')
+    rule.check(ctx.cfg(sv).must_pass(
+        ctx.cfg(sv).entry, [n for n, _c in U.calls_in(
+            ctx.cfg(sv), '_check_workflow_integrity')]),
+        ctx.construct(sv, extra='integrity check always runs'),
+        'reverse workflow validation can finish without the integrity check',
+        ctx.loc(sv))
+    # direct: every outbound name of every task
+    dv = prog.func(WF + 'DirectWorkflowSpec._check_workflow_integrity')
+    dcfg = ctx.cfg(dv)
+    cs = U.calls_in(dcfg, '_validate_task_link')
+    rule.check(len(cs) == 1, ctx.construct(dv, extra='validates targets'),
+               'transition targets are not validated', ctx.loc(dv))
+    for n, c in cs:
+        fors = [x for x in own_nodes(dv.node) if isinstance(x, ast.For)
+                and any(y is c for y in ast.walk(x))]
+        its = sorted(norm(U.canon_expr(dv.node, x.iter), 200) for x in fors)
+        rule.check(its == ['self.find_outbound_task_names(t_s.get_name())',
+                           'self.get_tasks()'] and
+                   not U.guard_atoms(dcfg, n),
+                   ctx.construct(dv, c, extra='all targets of all tasks'),
+                   'not every transition target of every task is validated '
+                   '(loops over %s)' % its, ctx.loc(dv, c))
+    sv = prog.func(WF + 'DirectWorkflowSpec.validate_semantics')
+    rule.check(ctx.cfg(sv).must_pass(
+        ctx.cfg(sv).entry, [n for n, _c in U.calls_in(
+            ctx.cfg(sv), '_check_workflow_integrity')]),
+        ctx.construct(sv, extra='integrity check always runs'),
+        'direct workflow validation can finish without the integrity check',
+        ctx.loc(sv))
+
+
 def run(ctx):
     prog = ctx.prog
 
@@ -261,6 +351,10 @@ def run(ctx):
     r4.check(U.phas(ge.node, 'get_workflow_spec(__ex.spec)'),
              ctx.construct(ge), 'execution specs are not rebuilt from the '
              'stored spec dict', ctx.loc(ge))
+    # to_dict() hands out the backing dict: an in-place merge into a cached
+    # publish spec also changes what the next execution stores as its spec
+    from mstatic.rules import c05 as _c05
+    _c05.shared_publish_specs(ctx, r4)
 
     # ---- R6 shape before use --------------------------------------------------------------
     r6 = ctx.rule('R6', 'raw YAML nodes are type-checked before mapping '
@@ -503,6 +597,13 @@ def run(ctx):
              ctx.construct(pf, extra='returns the joined lines'),
              'the member text is not the concatenation of the collected '
              'lines', ctx.loc(pf))
+
+    # ---- R10 task references are checked at definition time -------------------------------
+    r10 = ctx.rule('R10', 'every task a transition or a `requires` names is '
+                   'checked to exist when the definition is validated '
+                   '(engine commands only where the controller can run '
+                   'them)', 'DT + COVER')
+    task_links_validated(ctx, r10)
 
     # ---- R5 regular expressions (thorough) ---------------------------------------------------
     if True:   # cheap (0.1 s): part of the quick tier since round three
